@@ -396,10 +396,13 @@ class Cluster:
         tmp = len(available_resources)
         if size > tmp > 0:
             size = tmp
+        new_reservation = not self.is_observation_provisioned(name)
         for m in range(0, size):
             self._add_idle_resource(name, available_resources[m])
 
-        self.num_provisioned_obs += 1
+        # Count a reservation when one is created, not on every call
+        if new_reservation and self.is_observation_provisioned(name):
+            self.num_provisioned_obs += 1
         return True
 
     def release_batch_resources(self, observation, c='default'):
